@@ -688,6 +688,9 @@ class ProtoEval:
         xv = self.ev(xo) if isinstance(xo, ast.Name) else (("pgattr", xo.attr) if isinstance(xo, ast.Attribute) else None)
         if xv != ("pgattr", "vrnt_xoprob"):
             raise PViol("R3-crossover", "meiosis is given %s as crossover probabilities, not pgmat.vrnt_xoprob" % dump(xo), node, "pgmat.vrnt_xoprob", dump(xo))
+        if isinstance(rng, ast.Name):
+            # a local bound once to the protocol's generator (`rng = self.rng`) is that generator
+            rng = _resolve(rng, _single_defs(self.f.node))
         if field_of(rng) != "rng":
             raise PViol("C02-R5-generator", "meiosis is given %s as generator, not the protocol's self.rng" % dump(rng), node, "self.rng", dump(rng))
 
@@ -984,6 +987,7 @@ def check_meiosis_calls(prog, rep, cname):
             rep.violate("C02-R5-generator", f.qualname, "%s receives %s as crossover probabilities, not pgmat.vrnt_xoprob" % (call.func.id, dump(xo) if xo is not None else "<nothing>"),
                         where(f, call), "pgmat.vrnt_xoprob", dump(xo) if xo is not None else "absent")
             good = False
+        rg = _resolve(rg, defs) if rg is not None else None
         if rg is None or field_of(rg) != "rng":
             rep.violate("C02-R5-generator", f.qualname, "%s receives %s as generator, not the protocol's self.rng" % (call.func.id, dump(rg) if rg is not None else "<nothing>"),
                         where(f, call), "self.rng", dump(rg) if rg is not None else "absent")
